@@ -19,9 +19,10 @@ P = {
          "every API result and dump of the implementation is compared with the extracted Spec on generated histories, so a deviation is a concrete failing program.",
          "Root bucket used only through Tx methods; oversized bucket names and MoveBucket into the moved bucket's own subtree (D4) are outside generation.", "DESIGN.md §8 C04"),
  "C05": ("Cursor.v is a line-for-line Gallina model of cursor.go; theorems: the full refinement statement to the sorted-list specification is REFUTED with a kernel-checked witness (known finding D9), "
-         "the repaired prev/Last behaviour vs the pinned one on concrete trees, and enumeration laws of the specification; the model is compared call by call with the real cursor on the tree "
+         "and PROVED for every call sequence (First/Last/Next/Prev/Seek in any order, both ends) on every well-formed tree without emptied leaves - every committed tree, every read transaction; "
+         "Seek = first key >= the sought one; keys strictly increasing; the repaired prev/Last behaviour vs the pinned one on concrete trees; the model is compared call by call with the real cursor on the tree "
          "the cursor actually walks (VerifDumpTree), and the specification is evaluated on every call sequence.",
-         "Refinement theorem for trees without emptied leaves is not yet proved (monitored: committed trees have none); every call runs under a 3 s deadline.", "DESIGN.md §8 C05"),
+         "For trees with leaves emptied inside a write transaction only the refutation (D9) and the call-by-call correspondence are available; every call runs under a 3 s deadline.", "DESIGN.md §8 C05"),
  "C06": ("Pager.v invariant (inductive, all histories): every page a commit writes is outside the newest committed version and outside every open reader's version; the meta slot alternates. "
          "Tie: the extracted pstep is replayed on the real freelist events (guards monitored, free/pending/version/written sets compared) and every real WriteAt is intersected with "
          "decoder-computed page sets of all visible versions.",
@@ -33,7 +34,9 @@ P = {
          "invariant (exact accounting, reader pages protected) holds afterwards - for all histories. Tie: every I/O call index of the failing commit is failed once (error returned instead of the call), with and "
          "without a reader held across; results, dumps, Tx.Check, decoder accounting, next writer and reopen compared with Spec.v.",
          "Injected failures have no partial effect (the call is not performed). Known finding D5 (failed sync after the meta write with an older reader open). After a failed mmap ErrInvalidMapping from Begin counts as not blocking.", "DESIGN.md §8 C08"),
- "C09": ("Coq theorems (closed under the global context) about an executable model of internal/freelist for all states and ids without bound; the model is tied to the Go code on every run by "
+ "C09": ("24 Coq theorems (closed under the global context) about an executable model of internal/freelist for all states and ids without bound: Free (pending, guard), Allocate for both backends "
+         "(sound, complete, lowest run / exact span first, never page 0/1, total; hash-map for every span choice), ReleasePendingPages (a released page is needed by no reader, nothing lost, all released "
+         "without readers; the pinned code refuted - D10), Rollback restores, serialisation round trip beyond 65534 ids, and soundness of the four decision procedures; the model is tied to the Go code on every run by "
          "differential execution against both backends, and the property's decision procedures are evaluated on the implementation's own before/after states.",
          "hashmap span choice and the reader set are inputs of the model.", "DESIGN.md §8 C09"),
  "C10": ("Pager.v: with no reader open the next writer can release every pending page (then nothing is withheld); pending pages are the writer's own frees or older ones some reader may see; "
@@ -59,10 +62,10 @@ P = {
          "by scanning is exactly free+pending = the unreachable pages (rebuild); the previous version's pages are intact directly after a commit (invariant). Tie: the CLI commands run in process after commits; "
          "output decoded before any Open, then opened; content vs Spec.v (previous version for revert), accounting, Tx.Check, source SHA-256.",
          "clear-page / copy-page / meta update surgery commands are not covered (not part of the property).", "DESIGN.md §8 C20"),
- "C15": ("Compact.v models walk + replay on the reference map without a limit parameter (commit points cannot change Spec content). Proved: copying a bucket's entries in walk order rebuilds exactly that bucket "
-         "(one level, all contents); nested sources are covered by kernel-evaluated examples and by the tie only (theorem labelled partial). Tie: library and CLI compaction for 8 limits incl. 1, 2, 7 bytes vs the "
+ "C15": ("Compact.v models walk + replay on the reference map without a limit parameter (commit points cannot change Spec content). Proved for arbitrarily nested sources: compact rebuilds every bucket, key, value and nested "
+         "sequence of a well-formed source exactly (nested sequences < 2^64 - always true of the Go field - is necessary and sufficient). Tie: library and CLI compaction for 8 limits incl. 1, 2, 7 bytes vs the "
          "extracted model run on the decoded source image; destination Tx.Check; source SHA-256 before/after.",
-         "The nested induction (paths) is not mechanised yet: C15 is partial on the theorem side.", "DESIGN.md §8 C15"),
+         "The transaction-size limit is not a parameter of the model (a commit does not change Spec content); the destination root's own sequence is not copied (the code does not either).", "DESIGN.md §8 C15"),
  "C16": ("Batch.v models batch.run (retry loop, swap-remove, solo re-run). Proved for every batch of distinct callers and every script: every caller gets a result; nil <=> exactly one of its invocations is committed "
          "(a successful one); error/panic <=> none; the loop terminates within length+1 rounds; swap-remove removes exactly the failing call. Tie: deterministic batches (arrival order fixed through a verif accessor) "
          "are predicted exactly by the extracted model; free-running concurrent callers are judged by counters and recorded invocations in the database.",
@@ -83,9 +86,9 @@ P = {
          "max(MaxSize, previous length); the unrestricted statement is REFUTED by a kernel-checked witness (known finding D7). Tie: every ErrMaxSizeReached and every file length after commit predicted by the "
          "extracted model from the real allocation events; Spec.v for the refused transaction; decoder accounting.",
          "Known finding D7 (map inflated by InitialMmapSize). Windows-specific branches are not modelled.", "DESIGN.md §8 C18"),
- "C12": ("Round-trip theorems between the published layout as a writer specification (LayoutEnc.v) and the independent reader (Layout.v) for integers and checksummed meta pages at any file position; "
+ "C12": ("Round-trip theorems between the published layout as a writer specification (LayoutEnc.v) and the independent reader (Layout.v) for integers, checksummed meta pages, free-list pages (both count encodings), leaf pages and branch elements at any file position; "
          "every file the implementation writes in generated histories is decoded by the extracted reader and compared with the API's report.",
-         "Leaf/branch/freelist page round trips are exercised by the correspondence only (theorems so far: integers, meta).", "DESIGN.md §8 C12"),
+         "Inline-bucket values and the recursive descent through branch pages are exercised by the correspondence only.", "DESIGN.md §8 C12"),
 }
 ALL = ["C%02d" % i for i in range(1, 21)]
 def chk(pid):
